@@ -54,6 +54,9 @@ class World:
         self.zombies = []
         self.by_id = set()  # slots whose handle was opened by id (it may not know its state point yet)
         self.lazy_copy = {}  # slot -> the shallow copy linking it to its group was made before the state point object existed
+        # slots whose job directory disappeared through ANOTHER handle (removed / re-keyed away): per-handle fields are
+        # out of date; the documented way back is the handle's own init() or remove(), nothing else is offered
+        self.stale = set()
 
     # ------------------------------------------------------------------ helpers
     def sp(self, i):
@@ -72,21 +75,28 @@ class World:
 
     def _drop_slot(self, slot):
         self.slots.pop(slot, None)
+        self.stale.discard(slot)
         g = self.group_of.pop(slot, None)
         if g is not None and g not in self.group_of.values():
             self.groups.pop(g, None)
 
-    def _invalidate_others(self, group, proj, jid):
-        """Independent handles on (proj, jid) become non-current (their use is undefined)."""
+    def _invalidate_others(self, group, proj, jid, revivable=False):
+        """Independent handles on (proj, jid) become non-current: dropped, or (revivable) kept as stale."""
         for slot in list(self.slots):
             gg = self.group_of[slot]
             if gg != group and self.groups[gg]["proj"] == proj and canon.job_id(self.groups[gg]["sp"]) == jid:
-                self._drop_slot(slot)
+                if revivable and _revivable(self.slots[slot]) and not (slot in self.by_id and _unloaded(self.slots[slot])):
+                    self.stale.add(slot)
+                else:
+                    self._drop_slot(slot)
 
-    def _drop_group(self, group, keep=None):
+    def _drop_group(self, group, keep=None, revivable=False):
         for slot in list(self.slots):
             if self.group_of[slot] == group and slot != keep:
-                self._drop_slot(slot)
+                if revivable and _revivable(self.slots[slot]) and not (slot in self.by_id and _unloaded(self.slots[slot])):
+                    self.stale.add(slot)
+                else:
+                    self._drop_slot(slot)
 
     def model_job(self, slot):
         g = self.g(slot)
@@ -104,15 +114,20 @@ class World:
             if name not in self.slots and alphabet.get("open", True):
                 ops.append(("open", name, i))
         for s in sorted(self.slots):
-            if len(s) == 1:
+            if len(s) == 1 and s not in self.stale:
                 for kind, suffix in (("copy", "c"), ("deep", "d"), ("pickle", "p")):
                     if alphabet.get(kind, True) and s + suffix not in self.slots:
                         ops.append((kind, s, s + suffix))
 
         for s in sorted(self.slots):
+            if s in self.stale:
+                ops += [("init", s), ("remove", s)]
+                continue
             ops.append(("init", s))
             if alphabet.get("doc", True):
                 ops += [("doc_set", s), ("doc_del", s)]
+                if alphabet.get("doc_assign", True):
+                    ops.append(("doc_assign", s))
             if alphabet.get("files", True):
                 ops += [("write", s, "f1")]
                 if alphabet.get("files2", True):
@@ -128,6 +143,8 @@ class World:
                 ops += [("move", s), ("clone", s)]
             if alphabet.get("reopen", True) and self.model_job(s) is not None:
                 ops.append(("reopen", s))
+                if alphabet.get("reopen_session", True):
+                    ops.append(("reopen_session", s))  # by id through the long-lived Project (as iteration hands them out)
             if alphabet.get("reopen", True) and self.model_job(s) is None and self.g(s)["proj"] == "P" and \
                     canon.job_id(self.g(s)["sp"]) in _priv(self.proj["P"], "_sp_cache", ()):
                 # a job that is gone from the workspace stays re-openable by id through a session that still knows it
@@ -222,12 +239,24 @@ class World:
         if name == "init":
             run(job.init)
             self._ensure_model_job(slot)
+            self.stale.discard(slot)
         elif name == "doc_set":
             def f():
                 job.doc["x"] = (mj["doc"].get("x", 0) + 1) if mj else 1
             run(f)
             m = self._ensure_model_job(slot)
             m["doc"]["x"] = m["doc"].get("x", 0) + 1
+        elif name == "doc_assign":
+            # whole-document assignment through the `doc` / `document` aliases (alternating): replaces, never merges
+            n = (mj["doc"].get("n", 0) + 1) if mj else 1
+            def f():
+                if n % 2:
+                    job.doc = {"n": n}
+                else:
+                    job.document = {"n": n}
+            run(f)
+            m = self._ensure_model_job(slot)
+            m["doc"] = {"n": n}
         elif name == "doc_del":
             def f():
                 del job.doc["x"]
@@ -265,8 +294,9 @@ class World:
                             and shared_doc is not None and getattr(self.slots[x], "_document", None) is shared_doc]
             # per-handle fields (_directory_known, document handle) of every OTHER handle on this job are stale
             # now, shallow copies included: only re-keys are promised to propagate.  They are not offered any more.
-            self._invalidate_others(grp, proj, jid)
-            self._drop_group(grp, keep=slot)
+            self._invalidate_others(grp, proj, jid, revivable=True)
+            self._drop_group(grp, keep=slot, revivable=True)
+            self.stale.discard(slot)
             if slot in self.by_id and _unloaded(job):
                 # opened by id and never asked for its state point: with the job gone nobody can tell it any more
                 self._drop_slot(slot)
@@ -334,7 +364,7 @@ class World:
                                  f"{op}: state point {old} -> {new} requested, handle still reports id {job.id} "
                                  f"and state point {job.statepoint()!r}", op=name)
             if new_id != jid:
-                self._invalidate_others(grp, proj, jid)
+                self._invalidate_others(grp, proj, jid, revivable=mj is not None)
                 if mj is not None:
                     self.jobs[proj].pop(jid)
                     mj["sp"] = _jcopy(new)
@@ -396,6 +426,13 @@ class World:
                         mj["sp"] = new
                         self.jobs[proj][new_id] = mj
                     self._invalidate_others(None, proj, jid)
+        elif name == "reopen_session":
+            holder = {}
+            run(lambda: holder.setdefault("j", self.proj[proj].open_job(id=jid)))
+            self._drop_slot(slot)
+            self.slots[slot] = holder["j"]
+            self.group_of[slot] = self._new_group(proj, g["sp"])
+            self.by_id.add(slot)
         elif name == "reopen_cached":
             holder = {}
             run(lambda: holder.setdefault("j", self.proj[proj].open_job(id=jid)))
@@ -430,6 +467,8 @@ class World:
                     out.append(("removed-job-document-still-visible", f"after remove() through a sibling, the document object "
                                 f"held by shallow copy {slot} still reads {seen!r}", {}))
         for slot in sorted(self.slots):
+            if slot in self.stale:
+                continue
             job = self.slots[slot]
             g = self.g(slot)
             want_id = canon.job_id(g["sp"])
@@ -512,6 +551,19 @@ class World:
                     ok = False
                 if not ok:
                     out.append(("directory-name-not-hash-of-file", f"{tag}/{jid}: file {raw_sp!r}", {}))
+            # the long-lived session (warm caches) must agree as well
+            try:
+                sess = self.proj[tag]
+                sids = sorted(j.id for j in sess)
+                if sids != sorted(want):
+                    out.append(("session-job-set-differs", f"project {tag}: session iteration {sids}; model {sorted(want)}", {}))
+                for jid, m in want.items():
+                    ssp = canon.plain(sess.open_job(id=jid).statepoint())
+                    if not canon.typed_eq(ssp, m["sp"]):
+                        out.append(("session-statepoint-differs", f"{tag}/{jid}: the session's open_job(id) gives {ssp!r}, "
+                                    f"model {m['sp']!r}", {}))
+            except Exception as e:  # noqa
+                out.append(("session-raises", f"project {tag}: {type(e).__name__}: {e}", {}))
             # raw walk: no temporary or backup files anywhere
             for dp, dn, fn in os.walk(path):
                 for f in fn:
@@ -544,7 +596,7 @@ class World:
             v = vars(j)
             spo = v.get("_statepoint")
             d = {
-                "slot": slot, "group": self.group_of[slot], "model_sp": canon.canon_json(self.g(slot)["sp"]),
+                "slot": slot, "stale": slot in self.stale, "group": self.group_of[slot], "model_sp": canon.canon_json(self.g(slot)["sp"]),
                 "model_proj": self.g(slot)["proj"],
                 "id": v.get("_id"), "req_init": v.get("_statepoint_requires_init"),
                 "cached": None if v.get("_cached_statepoint") is None else canon.canon_json(canon.plain(v["_cached_statepoint"])),
@@ -573,6 +625,13 @@ def _priv(obj, name, default):
 def _unloaded(job):
     """A by-id handle that has not read its state point yet (unknown counts as unloaded: such a handle is not judged)."""
     return bool(_priv(job, "_statepoint_requires_init", True)) and _priv(job, "_cached_statepoint", None) is None
+
+
+def _revivable(job):
+    """A handle that lost its job directory through another handle finds back through its own init() / remove() - unless it
+    already holds a document object: synced_collections keeps the in-memory content of a document whose file vanished, so
+    such a handle is not used again (unknown counts as holding one)."""
+    return _priv(job, "_document", "?") is None
 
 
 def _relfile(obj, root):
